@@ -117,6 +117,21 @@ class Runtime:
     def _load_model_proto(self, m: dict):
         import onnx
 
+        if m["pool"] == "script":
+            # a model built by translating a module-level @script function of the given source text
+            h = _sha(m["src"].encode())
+            if ("scriptmodel", h) not in self.long:
+                import types
+
+                modname = f"dsim_modelsrc_{h}"
+                fname = f"<dsim-modelsrc-{h}>"
+                linecache.cache[fname] = (len(m["src"]), None, m["src"].splitlines(True), fname)
+                mod = types.ModuleType(modname)
+                mod.__file__ = fname
+                sys.modules[modname] = mod
+                exec(compile(m["src"], fname, "exec"), mod.__dict__)  # noqa: S102
+                self.long[("scriptmodel", h)] = mod
+            return getattr(self.long[("scriptmodel", h)], m["fn"]).to_model_proto()
         if m["pool"] == "text":
             import onnx_ir as ir
 
@@ -365,6 +380,13 @@ class Runtime:
                 return {"model": self._serialize(r.model), "modified": str(bool(r.modified))}
         else:
             rs = self._rules(rules)
+            if op.get("pre_optimize"):
+                import onnxscript.optimizer as opt
+
+                m = ir.serde.deserialize_model(mp)
+                opt.optimize(m)
+                n = rs.apply_to_model(m)
+                return {"model": self._serialize(m), "count": str(n)}
             if api == "proto":
                 out = rewriter.rewrite(mp, rs)
             elif api == "apply":
@@ -518,6 +540,11 @@ def main() -> int:
     import onnxscript.rewriter.rules.fusion._layer_norm  # noqa: F401
     import onnxscript.rewriter.rules.fusion._rms_normalization  # noqa: F401
     import onnxscript.rewriter.rules.fusion._rotary_embedding  # noqa: F401
+    try:  # the rule tests' model-building modules import these; import once so forked children do not
+        import parameterized  # noqa: F401
+        import onnxscript.rewriter.testing  # noqa: F401
+    except Exception:  # noqa: BLE001
+        pass
 
     rt = Runtime(spec)
     log = []
